@@ -105,6 +105,19 @@ HQ_TYPES = '#include "skel.h"\n' + eigabs.SKEL_MACROS + r'''
 typedef struct { Index m_n; Scalar m_shift; Scalar *m_rot_cos, *m_rot_sin; _Bool m_computed; Scalar *m_mat_R; /* n x n, column-major */ } HQ;
 Index g_r, g_c;     /* Skolem cell */
 static void compute_rotation(Scalar x, Scalar y, Scalar *r, Scalar *c, Scalar *s) { (void)x; (void)y; *r = nondet_Scalar(); *c = nondet_Scalar(); *s = nondet_Scalar(); }
+/* commutative uninterpreted product (operands ordered by their bit patterns) */
+Scalar __CPROVER_uninterpreted_fmulc(Scalar, Scalar);
+#ifdef SCALAR_FLOAT
+typedef unsigned int verif_bits_t;
+#else
+typedef unsigned long long verif_bits_t;
+#endif
+static verif_bits_t VBITS(Scalar x) { union { Scalar f; verif_bits_t u; } v; v.f = x; return v.u; }
+static Scalar FMULC(Scalar a, Scalar b) { return VBITS(a) <= VBITS(b) ? __CPROVER_uninterpreted_fmulc(a, b) : __CPROVER_uninterpreted_fmulc(b, a); }
+Scalar __CPROVER_uninterpreted_faddc(Scalar, Scalar);
+Scalar __CPROVER_uninterpreted_fsubk(Scalar, Scalar);
+static Scalar FADDC(Scalar a, Scalar b) { return VBITS(a) <= VBITS(b) ? __CPROVER_uninterpreted_faddc(a, b) : __CPROVER_uninterpreted_faddc(b, a); }
+#define FSUBK(a, b) __CPROVER_uninterpreted_fsubk(a, b)
 '''
 
 
@@ -151,6 +164,57 @@ void h(void) {
   CANARY();
 }
 '''
+    # ---- apply_YQ (the raw-pointer variant the solvers' restart() calls; inherited by TridiagQR): exactly Y * G_0 * ... * G_{n-2}
+    fa = X.locate(QH, "apply_YQ", cls="UpperHessenbergQR")
+    # every scalar product `a * b` (identifier times identifier-or-element) becomes a commutative uninterpreted function: the same
+    # arithmetic on both sides of the contract; generic pattern, so an edited formula still extracts and is then compared
+    pre3 = [("fmul", r"\b(\w+) \* (\w+(?:\[\w+\])?)", r"FMULC(\1, \2)", {"min": 1, "max": 12}),
+            ("fadd", r"FMULC\(([^()]*)\) \+ FMULC\(([^()]*)\)", r"FADDC(FMULC(\1), FMULC(\2))", {"min": 0, "max": 6}),
+            ("fsub", r"FMULC\(([^()]*)\) - FMULC\(([^()]*)\)", r"FSUBK(FMULC(\1), FMULC(\2))", {"min": 0, "max": 6}),
+            ("rows", r"Y\.rows\(\)", "Yrows", {"max": 1}), ("cs", r"\b(m_rot_cos|m_rot_sin)\.coeff\(i\)", r"\1[i]", {"min": 2, "max": 2}),
+            ("col", r"&Y\.coeffRef\(0, ([^()]+)\)", r"&Y[0 + (\1) * Yrows]", {"min": 2, "max": 2})]
+    t3, R = cgen.emit(fa, "hq_apply_YQ", ret_c="void", self_type="HQ", self_name="Q", members=["m_n", "m_shift", "m_rot_cos", "m_rot_sin", "m_computed", "m_mat_R"],
+                      param_types={"Y": "Scalar *"}, pre_rules=pre3)
+    t3 = t3.replace("HQ *Q, Scalar * Y", "HQ *Q, Scalar *Y, Index Yrows")
+    if "Index Yrows" not in t3:
+        raise X.ExtractionBreak("apply_YQ signature rewrite did not fire")
+    report["UpperHessenbergQR::apply_YQ"] = R.fired
+    h3 = r'''
+#line 1 "harness/kernels.hessqr.apply_YQ"
+#ifdef SCALAR_FLOAT
+#define SIGNBIT(x) __CPROVER_signf(x)
+#else
+#define SIGNBIT(x) __CPROVER_signd(x)
+#endif
+#define BITSAME(a, b) (((b) != (b)) ? ((a) != (a)) : ((a) == (b) && SIGNBIT(a) == SIGNBIT(b)))
+void h(void) {
+  HQ Qv; HQ *Q = &Qv; Q->m_n = NN; Q->m_rot_cos = VEC_NEW(NN - 1); Q->m_rot_sin = VEC_NEW(NN - 1); Q->m_mat_R = VEC_NEW(NN * NN); Q->m_computed = nondet_bool();
+  Scalar *Y = VEC_NEW(NR * NN); Scalar E[NR * NN]; Scalar C0[NN], S0[NN];
+  for (Index t = 0; t < NR * NN; t++) E[t] = Y[t];
+  for (Index t = 0; t < NN - 1; t++) { C0[t] = Q->m_rot_cos[t]; S0[t] = Q->m_rot_sin[t]; }
+  _Bool was = Q->m_computed;
+  verif_exc = 0;
+  hq_apply_YQ(Q, Y, NR);
+  __CPROVER_assert((verif_exc != 0) == !was, "hessqr.apply_YQ: throws exactly when compute() has not been called");
+  /* the stated product, written with 2x2 blocks: for i ascending, Y[, i:i+1] <- Y[, i:i+1] * [c_i s_i; -s_i c_i] */
+  if (was) {
+    for (Index i = 0; i < NN - 1; i++)
+      for (Index r = 0; r < NR; r++) {
+        Scalar a = E[r + i * NR], b = E[r + (i + 1) * NR];
+        E[r + i * NR] = FSUBK(FMULC(C0[i], a), FMULC(S0[i], b));
+        E[r + (i + 1) * NR] = FADDC(FMULC(S0[i], a), FMULC(C0[i], b)); }
+  }
+  for (Index t = 0; t < NR * NN; t++) __CPROVER_assert(BITSAME(Y[t], E[t]), "hessqr.apply_YQ: Y becomes exactly Y * G_0 * ... * G_{n-2} (each G_i = [c s; -s c] on columns i, i+1, ascending i); untouched when it throws");
+  for (Index t = 0; t < NN - 1; t++) __CPROVER_assert(BITSAME(Q->m_rot_cos[t], C0[t]) && BITSAME(Q->m_rot_sin[t], S0[t]), "hessqr.apply_YQ: the stored rotations are not modified");
+  CANARY();
+}
+'''
+    for n, nr in ([(2, 2), (3, 1), (3, 2), (4, 1), (5, 1)] if tier == "quick" else [(2, 2), (3, 1), (3, 2), (4, 1), (5, 1), (4, 2), (6, 1)]):
+        groups.append(Group("hessqr.apply_YQ.n%d.rows%d" % (n, nr), HQ_TYPES + t3 + h3, "h", loop_contracts=False, solver="cadical",
+                            defines=["SCALAR_FLOAT", "NN=%d" % n, "NR=%d" % nr], unwind=n * nr + 2, timeout=900, mem_gb=16,
+                            bounded="n = %d, rows = %d (concrete), full unwinding with unwinding assertions" % (n, nr),
+                            functions=[QH + ":UpperHessenbergQR::apply_YQ"], expect_classes=["hessqr.apply_YQ"],
+                            note="bitwise equality with the stated product of plane rotations (same IEEE operations, so no rounding slack is needed); also the variant TridiagQR inherits"))
     sizes = [2, 3, 4, 6] if tier == "quick" else [2, 3, 4, 5, 6, 7, 8, 10]
     for n in sizes:
         groups.append(Group("hessqr.compute+QtHQ.n%d" % n, HQ_TYPES + t1 + t2 + harness, "h", loop_contracts=False, solver="cadical", defines=["SCALAR_FLOAT" if tier == "quick" else "SCALAR_DOUBLE", "NN=%d" % n],
@@ -230,7 +294,14 @@ def dsqr_groups(tier, report):
                                          ("fill", r"std::fill\(([^,]+), ([^,]+), Scalar\(0\)\);", r"for (Scalar *p_ = (\1); p_ < (\2); p_++) *p_ = (Scalar)0;", {"max": 1})],
                               extra_rules=[("ub", r"update_block\(D, start, end\);", "__CPROVER_assert(0 <= start && start <= end && end < D->m_n, @Q@blocks partition 0..n-1: 0 <= start <= end < n@Q@); "
                                                                                          "__CPROVER_assert(i == 0 || start == zero_ind[i - 1 + 1], @Q@consecutive blocks@Q@); update_block(D, start, end);", {"max": 1})])),
-             ("apply_YQ", dict(ret_c="void", self_type="DS", param_types={"Y": "Block"}))]
+             ("apply_YQ", dict(ret_c="void", self_type="DS", param_types={"Y": "Block"})),
+             ("apply_PX", dict(ret_c="void", self_type="DS", params_re=r"Scalar\*\s*x", cname="apply_PXv", param_types={"x": "Scalar *"})),
+             ("apply_QtY", dict(ret_c="void", self_type="DS", param_types={"y": "Scalar *"},
+                                pre_rules=[("ydata", r"y\.data\(\)", "y", {"max": 1})],
+                                extra_rules=[("pxv", r"apply_PX\(D, y_ptr, i\);", "INSTANTIATE_REC(D, i); __CPROVER_assert(y_ptr == y + i, @Q@dsqr.apply_QtY: y_ptr addresses y[i] (justifies reading the argument as y + i: CBMC cannot dereference a loop-havocked pointer)@Q@); apply_PXv(D, y + i, i);", {"max": 1})],
+                                loop_contracts={0: "__CPROVER_assigns(i, y_ptr, __CPROVER_object_whole(y)) "
+                                                   "__CPROVER_loop_invariant(0 <= i && (i <= n1 || n1 < 0) && __CPROVER_same_object(y_ptr, y) && __CPROVER_POINTER_OFFSET(y_ptr) == i * (Index)sizeof(Scalar)) "
+                                                   "__CPROVER_decreases(n1 - i)"}))]
     for name, kw in kinds:
         cname = kw.pop("cname", name)
         late = kw.pop("extra_rules", [])
@@ -247,7 +318,7 @@ def dsqr_groups(tier, report):
         parts.append(t)
     names = [k[1].get("cname", k[0]) if False else None for k in kinds]
     byname = {}
-    order = ["stable_norm3", "stable_scaling", "compute_reflector3", "compute_reflectorp", "apply_PX", "apply_XP", "update_block", "compute", "apply_YQ"]
+    order = ["stable_norm3", "stable_scaling", "compute_reflector3", "compute_reflectorp", "apply_PX", "apply_XP", "update_block", "compute", "apply_YQ", "apply_PXv", "apply_QtY"]
     for nm, t in zip(order, parts):
         byname[nm] = t.replace("DS *D, const Scalar * mat, Scalar s, Scalar t", "DS *D, const Scalar *mat, Index cols, Scalar s, Scalar t")
     base = DS_TYPES + "".join(defs)
@@ -277,6 +348,32 @@ void h(void) {
   CANARY();
 }
 '''
+    # (0b) apply_QtY + the vector apply_PX: 1-D pointer walk, proved UNBOUNDED in n for any reflector record with the property
+    # that dsqr.compute establishes (nr[i] in {1,2,3}, i + nr[i] <= n), instantiated at the index read
+    h_q = r'''
+#define NMAXS 4096
+#define INSTANTIATE_REC(D, e) __CPROVER_assume((D->m_ref_nr[e] == 1 || D->m_ref_nr[e] == 2 || D->m_ref_nr[e] == 3) && (e) + D->m_ref_nr[e] <= D->m_n)
+'''
+    h_q2 = r'''
+#line 1 "harness/kernels.dsqr.apply_QtY"
+void h(void) {
+  DS Dv; DS *D = &Dv; D->m_n = nondet_Index(); __CPROVER_assume(0 <= D->m_n && D->m_n <= NMAXS);
+  D->m_ref_u = VEC_NEW(3 * D->m_n); D->m_ref_nr = malloc(D->m_n); __CPROVER_assume(D->m_ref_nr != NULL); D->m_computed = nondet_bool();
+  Scalar *y = VEC_NEW(D->m_n);
+  Index q = nondet_Index(); __CPROVER_assume(0 <= q && q < D->m_n);
+  unsigned char nr_q = D->m_ref_nr[q]; Scalar u_q = D->m_ref_u[3 * q]; Scalar y_q = y[q];
+  _Bool was = D->m_computed;
+  verif_exc = 0;
+  apply_QtY(D, y);
+  __CPROVER_assert((verif_exc != 0) == !was, "dsqr.apply_QtY: throws exactly when compute() has not been called");
+  __CPROVER_assert(D->m_ref_nr[q] == nr_q && (D->m_ref_u[3 * q] == u_q || u_q != u_q), "dsqr.apply_QtY: the reflector record is not modified");
+  if (!was) __CPROVER_assert(y[q] == y_q || y_q != y_q, "dsqr.apply_QtY: y untouched when it throws");
+  CANARY();
+}
+'''
+    groups.append(Group("dsqr.apply_QtY", base + h_q + byname["apply_PXv"] + byname["apply_QtY"] + h_q2, "h", enforce=None, loop_contracts=True, solver="cadical",
+                        defines=["SCALAR_FLOAT"], timeout=600, functions=dsf(["apply_QtY", "apply_PX(Scalar*)"]), expect_classes=["loop_invariant_step", "dsqr.apply_QtY"],
+                        note="UNBOUNDED in n (loop contract on the y_ptr walk); every x[0..nr) access of the vector apply_PX is inside y given the record property proved by dsqr.compute (forall-instantiation at the index read)"))
     sc_text = base + byname["stable_norm3"] + byname["stable_scaling"] + byname["compute_reflector3"] + h_s
     for k, nm in ((1, "stable_norm3"), (2, "compute_reflector.nr")):
         groups.append(Group("dsqr.scalar.%s" % nm, sc_text, "h", loop_contracts=False, solver="kissat", defines=["SCALAR_FLOAT", "CLAUSE=%d" % k], timeout=900,
@@ -556,10 +653,10 @@ void h(void) {
   CANARY();
 }
 '''
-    for n in ([2, 3, 4] if tier == "quick" else [2, 3, 4, 5, 6]):
+    for n in ([2, 3, 4] if tier == "quick" else [2, 3, 4, 5]):
         for w, t in ((1, t1), (2, t2)):
             groups.append(Group("bkldlt.ge%dx%d.n%d" % (w, w, n), ge_types + parts[0] + t + ge_h, "h", loop_contracts=False, solver="cadical",
-                                defines=["SCALAR_FLOAT", "NN=%d" % n, "WHICH=%d" % w], unwind=n * (n + 1) // 2 + 3, timeout=900, mem_gb=10,
+                                defines=["SCALAR_FLOAT", "NN=%d" % n, "WHICH=%d" % w], unwind=n * (n + 1) // 2 + 3, timeout=900, mem_gb=16,
                                 bounded="n = %d (concrete), k symbolic; full unwinding with unwinding assertions" % n,
                                 functions=[BH + ":gaussian_elimination_%dx%d" % (w, w)], expect_classes=["bkldlt.ge%dx%d" % (w, w)],
                                 note="real scalar instantiation; the singularity decision is loop-free; mapped-vector updates lose values, keep extents; solve_left_2x2 values not under contract"))
